@@ -35,6 +35,7 @@ void Runner::viol(const char *prop, const std::string &cls, const std::string &s
   v.prop = prop;
   v.cls = cls;
   v.sig = std::string(prop) + "/" + cls + (sigrest.empty() ? "" : "/" + sigrest);
+  if (plan.w.low_fds != 7 && v.sig.find("low-fds=") == std::string::npos) v.sig += fmt("/low-fds=%d", plan.w.low_fds);
   v.detail = detail;
   v.op = op;
   out.viols.push_back(v);
@@ -210,6 +211,7 @@ void Runner::setup() {
   int nthreads = 1;
   for (auto &op : plan.ops) if (op.thread + 1 > nthreads) nthreads = op.thread + 1;
   octx.assign((size_t) nthreads, OpCtx());
+  tpos.assign((size_t) nthreads, 0);
   for (int i = 0; i < nthreads; i++) {
     Thread *t = k->thread_new([](void *arg) { G->thread_main((int) (intptr_t) arg); }, (void *) (intptr_t) i);
     t->mask = plan.w.mask & ~((1ull << (SIGKILL - 1)) | (1ull << (SIGSTOP - 1)));
@@ -229,8 +231,10 @@ void Runner::thread_main(int tid) {
   Thread *t = K->threads[(size_t) tid];
   for (size_t i = 0; i < plan.ops.size(); i++) {
     if (plan.ops[i].thread != tid) continue;
+    tpos[(size_t) tid] = i;
     exec_op(t, (int) i);
   }
+  tpos[(size_t) tid] = plan.ops.size();
 }
 
 // ------------------------------------------------------------------ hooks (live monitors)
